@@ -235,6 +235,9 @@ def r9_closure_inline(text, log):
         c = match_close(st, o)
         args = [span_text(text, st, a, b) for a, b in split_args(st, o, c)]
         rep = render(args)
+        nxt_tok = st[c + 1].text if c + 1 < len(st) else ";"
+        if nxt_tok not in (";", ",", ")", "}", "]"):
+            rep = "(" + rep + ")"  # keep `f(a).m()` / `f(a) + 1` an expression when it starts a statement
         text = text[:st[k].start] + rep + text[st[c].end:]
         log["R9 closure-inline"] = log.get("R9 closure-inline", 0) + 1
         if len(calls) == 1:
